@@ -7,6 +7,7 @@ import (
 	"go/types"
 	"morlockverif/checker/internal/core"
 	"strings"
+	"time"
 
 	"golang.org/x/tools/go/ssa"
 )
@@ -49,13 +50,18 @@ type Interp struct {
 	// path; after that only the exit edge is followed (each call site in the body is still seen).
 	SymLoopLimit int
 
+	// MaxTime bounds one Run/RunFrom in wall-clock time; when it is exceeded the remaining paths
+	// end as aborted (the rule then reports the obligation as undecided instead of hanging).
+	MaxTime  time.Duration
+	deadline time.Time
+
 	paths int
 	cells int
 	loops map[*ssa.BasicBlock]map[*ssa.BasicBlock]bool
 }
 
 func New(prog *ssa.Program) *Interp {
-	return &Interp{Prog: prog, MaxDepth: 8, MaxSteps: 20000, MaxPaths: 20000, MaxVisit: 70, Pure: map[string]bool{}}
+	return &Interp{Prog: prog, MaxDepth: 8, MaxSteps: 20000, MaxPaths: 20000, MaxVisit: 70, MaxTime: 20 * time.Second, Pure: map[string]bool{}}
 }
 
 type frame struct {
@@ -85,6 +91,7 @@ func (fr *frame) clone() *frame {
 func (in *Interp) Run(fn *ssa.Function, args []Value, st *State) []Outcome {
 	var outs []Outcome
 	in.paths = 0
+	in.deadline = time.Now().Add(in.MaxTime)
 	in.call(fn, nil, args, st, 0, func(o Outcome) { outs = append(outs, o) })
 	return outs
 }
@@ -124,6 +131,7 @@ func (in *Interp) call(fn *ssa.Function, bindings []Value, args []Value, st *Sta
 func (in *Interp) RunFrom(fn *ssa.Function, start, prev *ssa.BasicBlock, env map[ssa.Value]Value, stop map[*ssa.BasicBlock]bool, st *State) []Outcome {
 	var outs []Outcome
 	in.paths = 0
+	in.deadline = time.Now().Add(in.MaxTime)
 	fr := &frame{fn: fn, env: map[ssa.Value]Value{}, visits: map[*ssa.BasicBlock]int{}, stop: stop}
 	for k, v := range env {
 		fr.env[k] = v
@@ -136,6 +144,11 @@ func (in *Interp) block(fr *frame, b *ssa.BasicBlock, prev *ssa.BasicBlock, st *
 	if fr.stop[b] && fr.visits[b] >= 0 && prev != nil && len(fr.visits) > 0 {
 		in.paths++
 		k(Outcome{St: st, Stopped: b, From: prev, Env: fr.env})
+		return
+	}
+	if in.MaxTime > 0 && time.Now().After(in.deadline) {
+		st.Note("time budget exceeded in %s", fr.fn)
+		k(Outcome{St: st, Abort: true, Pos: fr.fn.Pos()})
 		return
 	}
 	fr.visits[b]++
